@@ -5,7 +5,7 @@
 //! E2: (i) BFS over "apply simplifier s" from every seed (non-initial states), (ii) the rewrite system:
 //! BFS where a transition is one checked primitive rule at one vertex / vertex pair (every rule order).
 
-use crate::checks::c04::{rules1, rules2, targeted_family};
+use crate::checks::c04::{gadget_web_at, gadget_web_count, rules1, rules2, targeted_family};
 use crate::conv::*;
 use crate::gen::*;
 use crate::report::*;
@@ -314,6 +314,18 @@ pub fn run(rep: &mut Report) {
             watch_end();
         });
         rep.absorb("targeted", "local-complementation stars, pivot double stars, gadget pairs", true, None, t0, stats);
+    }
+    // gadget webs
+    for (gn, sn) in if quick { vec![(3usize, 2usize), (4, 2)] } else { vec![(3, 3), (4, 3), (5, 1), (5, 2)] } {
+        let t0 = Instant::now();
+        let n = gadget_web_count(gn, sn);
+        let stats = sweep_range(n, |st, idx| {
+            watch_begin(idx, 5);
+            let spec = gadget_web_at(gn, sn, idx);
+            on_spec(st, &spec, 1);
+            watch_end();
+        });
+        rep.absorb(&format!("gadget webs W({},{})", gn, sn), &format!("{} phase gadgets and {} plain support spiders with outputs: every set of hub-hub edges x every attachment of hubs to supports x 4 leaf-phase / hub-phase variants (equal, nested, disjoint and mutually supporting gadget neighbourhoods)", gn, sn), true, None, t0, stats);
     }
     // circuit-derived seeds
     let cfams: Vec<(&str, usize, Vec<quizx::gate::Gate>, usize, usize)> = if quick {
